@@ -89,13 +89,13 @@ RECURSIVE EncVal(_, _, _, _, _), Members(_, _, _, _, _), EncMsgVal(_, _, _, _)
 \* md = [nh, nn]: nh = the mode nested messages are encoded in (FALSE models D_nested_codec_ignored);
 \* nn = TRUE models D_unwrap_empty_as_null (an empty unwrapped list is written as null).
 EncMsgVal(s, x, h, md) ==
-  IF ~HasMsg(s, x.type) THEN x.std                      \* well-known / foreign types: protojson's rendering
+  IF ~HasMsg(s, x.type) THEN Canon(x.std)               \* well-known / foreign types: protojson's rendering
   ELSE LET M == MsgByName(s, x.type) IN
        IF h /\ IsRootUnwrap(M) THEN EncVal(s, M.fields[1], x.fs[1].v, h, md)
        ELSE JObj(Members(s, M, x, h, md))
 
 EncVal(s, f, x, h, md) ==
-  CASE x.t = "s"  -> IF h THEN Leaf(f, x) ELSE x.std
+  CASE x.t = "s"  -> Canon(IF h THEN Leaf(f, x) ELSE x.std)   \* (a well-known type may render as an object / array)
     [] x.t = "l"  -> JArr([i \in DOMAIN x.es |-> EncVal(s, f, x.es[i], h, md)])
     [] x.t = "mp" -> JObj({<<x.es[i].k,
                              \* map-value unwrap: a value message with an unwrap field collapses to that field's array
